@@ -737,6 +737,34 @@ func c13Nacks(r *rng, id string) {
 	case <-time.After(6 * time.Second):
 		hang |= 2
 	}
+	// the same for a record created on relay duty (somebody asked this node to ping T on their behalf): a
+	// nack carrying the relay's own fresh number is foreign traffic and must simply be ignored
+	relayPanic := 0
+	func() {
+		defer func() {
+			if rec := recover(); rec != nil {
+				relayPanic = 1
+			}
+		}()
+		n.tr.take()
+		req := ml.VerifEncodeIndirectPing(777, []byte{10, 0, 0, 1}, 7946, "T", true, []byte{10, 0, 1, 1}, 7946, "R0")
+		ml.VerifIngestPacket(m, req, fromAddr, time.Now())
+		rseq := uint32(0)
+		for i := 0; i < 100 && rseq == 0; i++ {
+			time.Sleep(2 * time.Millisecond)
+			for _, pk := range n.tr.take() {
+				for _, p := range simParts(pk) { // the ping may travel with piggybacked gossip
+					if len(p) > 1 && p[0] == 0 {
+						rseq, _, _ = ml.VerifDecodePing(p[1:])
+					}
+				}
+			}
+		}
+		if rseq != 0 {
+			nack, _ := ml.VerifEncode(11, rseq, "", nil)
+			ml.VerifIngestPacket(m, nack, fromAddr, time.Now())
+		}
+	}()
 	sd := make(chan struct{})
 	go func() { m.Shutdown(); close(sd) }()
 	select {
@@ -747,6 +775,8 @@ func c13Nacks(r *rng, id string) {
 	bs := "-"
 	if hang != 0 {
 		bs = fmt.Sprintf("hang:packet-path-blocked-on-a-nack(%d-copies-for-seq-%d,mask=%d)", copies, seq, hang)
+	} else if relayPanic != 0 {
+		bs = "panic:nack-carrying-the-number-of-a-relayed-ping"
 	}
 	if seq == 0 {
 		return // the ping was not seen in time (an overloaded machine): the scenario did not get off the ground, no verdict
